@@ -37,7 +37,7 @@ func init() {
 			{Name: "l3-daemon-cancel", Fn: scnC13L3, Weight: 1},
 		},
 		Rule: "cancellation injected into each blocking state of each worker (ingester waiting for a writer; blocked reading an idle pipe; after the last writer closed the pipe (whatever the ingester does at the end of the stream); audit ingester handing a record downstream " +
-			"with a stopped consumer and buffer capacities {1,2,8,64,10000}, buffer empty or full; sshd pipeline handing a login to an unready correlator; audit processor idle / with lines queued / mid-push / during a maintenance flush / with a producer outside the cancelled group that keeps its queue topped up), " +
+			"with a stopped consumer and buffer capacities {1,2,8,64,10000}, buffer empty or full, cancelled at once or after 2-40 simulated seconds of back-pressure; sshd pipeline handing a login to an unready correlator; audit processor idle / with lines queued / mid-push / during a maintenance flush / with a producer outside the cancelled group that keeps its queue topped up), " +
 			"either in the constructively established state or at a tape-chosen scheduler step; plus the assembled daemon cancelled at a taped step under traffic; then a fair schedule with the clock advancing at quiescence: the worker must return within 1 simulated second and 20000 steps " +
 			"and stay silent for 10 further simulated seconds while input remains available; non-trivial = the intended blocking state was reached (probe) before cancel; distinct = distinct (state, capacity, fill, cancel step, schedule hash)",
 		Quick: 6400, Thorough: 200000,
@@ -250,12 +250,18 @@ func scnC13Backpressure(rc *RunCtx) {
 	if isFull && blockedSend() {
 		rc.Sim.Count("chan_full_at_cancel")
 	}
+	// the back-pressure may have lasted for a while when the cancellation arrives
+	waited := []int{0, 0, 2, 7, 40}[t.Choose(5, "blocked.for.s")]
+	if step < 0 && waited > 0 {
+		quietFor(rc, time.Duration(waited)*time.Second)
+		rc.Sim.Count("cancel_after_long_backpressure")
+	}
 	cancel()
 	rc.Sim.Count("ctx.cancel")
 	ok, why := settleAfterCancel(rc, func() bool { return res.v }, time.Second)
 	rc.CaseKey(capacity, full, step, n)
 	rc.R.NonTrivial = !full || isFull
-	rc.R.Sample = map[string]any{"worker": "auditlog.Ingest", "capacity": capacity, "lines": n, "buffer_full_at_cancel": isFull, "cancel_at_step": step, "returned": res.v, "err": fmt.Sprint(res.err)}
+	rc.R.Sample = map[string]any{"worker": "auditlog.Ingest", "capacity": capacity, "lines": n, "buffer_full_at_cancel": isFull, "blocked_for_s_before_cancel": waited, "cancel_at_step": step, "returned": res.v, "err": fmt.Sprint(res.err)}
 	if !ok {
 		rc.Fail("C13", "no-return-backpressure", "the audit log ingester did not return after cancellation (%s) while handing a record downstream: buffer %d/%d, consumer stopped: %v",
 			why, len(ch), capacity, rc.Sim.Live())
@@ -482,6 +488,7 @@ func scnC13L3(rc *RunCtx) {
 	p := newPipeline(rc, 3, h, sshdTL, auditTL)
 	p.Knobs["auditLogChanBufSize"] = []int{10000, 1, 2, 8}[rc.Spec.Choose(4, "knob.chan")]
 	p.Knobs["bufio"] = []int{4096, 16, 64}[rc.Spec.Choose(3, "knob.bufio")]
+	p.DebugLog = rc.Spec.Choose(3, "log.level") == 2
 	pol := pipelinePolicy(rc)
 	if err := p.Start(); err != nil {
 		rc.Abort("start: %v", err)
